@@ -3,11 +3,29 @@
 ScriptedStream wraps an in-memory buffer, numbers every read/write/seek/tell call and answers
 from a script {operation index: deviation}.  Default answer = the honest one.  Deviations:
   "raise"  - the operation raises OSError
+  "raise2" - the operation raises an exception that is neither OSError nor ValueError (a device wrapper's own class)
   "short"  - read(n>=1) returns one byte fewer; write returns a count one smaller (but writes all)
   "none"   - read returns None / write returns None (non-blocking stream with nothing ready)
 The operation trace is recorded so a replay file can show what the code asked the stream.
 """
-import io
+import io, sys
+
+
+class ScriptedFailure(Exception):
+    """what a third-party stream object may raise: not an OSError, not a ValueError"""
+
+
+def construct_stack():
+    """(class name, function name) of the construct methods on the Python stack, innermost first - which construct issued
+    the stream operation, and which constructs enclose it"""
+    out = []
+    f = sys._getframe(2)
+    while f is not None:
+        co = f.f_code
+        if co.co_filename.endswith("construct/core.py") and "self" in f.f_locals and co.co_name in ("_parse", "_build", "_sizeof", "_actualsize"):
+            out.append((type(f.f_locals["self"]).__name__, co.co_name))
+        f = f.f_back
+    return out
 
 
 class ScriptedStream:
@@ -18,6 +36,7 @@ class ScriptedStream:
         self.n = 0
         self.trace = []
         self.applied = []
+        self.stacks = []
 
     def _step(self, op, arg):
         k = self.n
@@ -26,12 +45,15 @@ class ScriptedStream:
         dev = self.script.get(k)
         if dev is not None:
             self.applied.append((k, op, dev))
+            self.stacks.append(construct_stack())
         return dev
 
     def read(self, n=None):
         dev = self._step("read", n)
         if dev == "raise":
             raise OSError("scripted read failure")
+        if dev == "raise2":
+            raise ScriptedFailure("scripted read failure")
         if n is None or n < 0:
             return self.buf.read()
         if dev == "short" and n >= 1:
@@ -44,6 +66,8 @@ class ScriptedStream:
         dev = self._step("write", len(data))
         if dev == "raise":
             raise OSError("scripted write failure")
+        if dev == "raise2":
+            raise ScriptedFailure("scripted write failure")
         k = self.buf.write(data)
         if dev == "short" and k >= 1:
             return k - 1
@@ -53,12 +77,16 @@ class ScriptedStream:
 
     def seek(self, off, whence=0):
         dev = self._step("seek", (off, whence))
+        if dev == "raise2":
+            raise ScriptedFailure("scripted seek failure")
         if dev in ("raise", "short", "none"):
             raise OSError("scripted seek failure (stream not seekable)")
         return self.buf.seek(off, whence)
 
     def tell(self):
         dev = self._step("tell", None)
+        if dev == "raise2":
+            raise ScriptedFailure("scripted tell failure")
         if dev in ("raise", "short", "none"):
             raise OSError("scripted tell failure (stream not tellable)")
         return self.buf.tell()
@@ -80,10 +108,10 @@ def applicable(op, arg):
     """deviations that make sense for an operation"""
     if op == "read":
         if arg is None or (isinstance(arg, int) and arg < 0):
-            return ["raise"]
+            return ["raise", "raise2"]
         if arg >= 1:
-            return ["raise", "short"]
-        return ["raise"]
+            return ["raise", "short", "raise2"]
+        return ["raise", "raise2"]
     if op == "write":
-        return ["raise", "short"] if arg >= 1 else ["raise"]
-    return ["raise"]
+        return ["raise", "short", "raise2"] if arg >= 1 else ["raise", "raise2"]
+    return ["raise", "raise2"]
